@@ -15,6 +15,21 @@ CLAIMED = {
     note=TB + "Percent columns compared within 0.006 (float rounding not modelled). Kernel-type regexes modelled as prefix/infix tests and compared against Python re on every generated name.",
     technique="Lean 4 proof (induction over the sorted merge fold; unit-cell measure) + model/implementation correspondence",
     design="7/C04"),
+  "C05": dict(
+    text="Lean 4 theorems: C05_type_time_exact (for every time-sorted permutation of the per-type markers, the time reported for a non-zero type combination m equals the unit-cell measure of {t | active-type mask = m}), C05_type_total_two/three (rows add up to the measure of the union), C05_aggr (for every tie order, num_kernels and quantile cut: sums incl. 'others' conserve the total duration, at most num_kernels named rows, named rows carry exactly their kernels' sum/max/min/count). Tied to get_gpu_kernel_breakdown by a differential run (tie-insensitive for equal sums), Spec.C05.checkAggr/exactTypeTime evaluated in Lean on the implementation's output, and an independent Python oracle.",
+    note=TB + "The quantile's float interpolation is recomputed with the same pandas call and passed to the model as a cut position (the theorem holds for every cut). mean compared as sum/count, percentages within rounding; stddev not compared.",
+    technique="Lean 4 proof (marker sweep = unit-cell measure; list conservation lemmas) + model/implementation correspondence",
+    design="7/C05"),
+  "C07": dict(
+    text="Lean 4 theorem C07_overlap_exact: for every start-sorted permutation of the communication/computation kernels and every time-sorted permutation of their +-1/+-2 markers, the sweep's numerator and denominator are the unit-cell measures of comm∩comp and comm, with 0 <= num <= den. Tied to get_comm_comp_overlap by a differential run; the reported percentage is checked against round(100*num/den,2) from the model, from Spec.C07.exact (cell counting in Lean) and from a Python oracle.",
+    note=TB + "num and den are not exposed by the API: the comparison is on the percentage within 0.006. den = 0 (only zero-length communication kernels) is 0/0 in the code and undefined in the statement; agreed outcome NaN.",
+    technique="Lean 4 proof (marker sweep = unit-cell measure) + model/implementation correspondence",
+    design="7/C07"),
+  "C15": dict(
+    text="Lean 4 theorem C15_rows_exact: under the well-formedness hypothesis (a correlation id pairs at most one host call with one device activity) the launch-statistics rows are exactly the (selected launch call, device activity) pairs with equal correlation, each once, with the two durations and delay = max 0 (activity start - call end). Tied to get_cuda_kernel_launch_stats by a differential run (multiset of rows) and an independent Python oracle phrased through index_correlation links.",
+    note=TB + "Row order is not compared.",
+    technique="Lean 4 proof (relational join over lists, Nodup/pairwise) + model/implementation correspondence",
+    design="7/C15"),
 }
 
 checks = []
